@@ -22,10 +22,12 @@ def sample_edges(run, edges, k=3):
 def pipeline(run, tier):
     run.build()
     if tier == "quick":
-        plan = [("ns", 3, ("osfs", "memfs", "orefafs")), ("nssym", 2, ("osfs", "memfs"))]
-        rnd = [(24, 120)]
+        plan = [("ns", 3, ("osfs", "memfs", "orefafs")), ("nssym", 2, ("osfs", "memfs")),
+                ("nsseed", 1, ("osfs", "memfs", "orefafs"))]
+        rnd = [(64, 150)]
     else:
-        plan = [("ns", 4, ("osfs", "memfs", "orefafs")), ("nssym", 3, ("osfs", "memfs"))]
+        plan = [("ns", 4, ("osfs", "memfs", "orefafs")), ("nssym", 3, ("osfs", "memfs")),
+                ("nsseed", 2, ("osfs", "memfs", "orefafs"))]
         rnd = [(200, 200), (200, 200), (200, 200)]
     for prof, L, targets in plan:
         edges = run.generate(prof, L, "%s%d" % (prof, L))
